@@ -51,6 +51,7 @@ theorem inv_step {w s l s'} (hwf : w.WF) (hi : Inv w s) (hs : Step s l s') : Inv
   | ret => exact ⟨invA_step_env ha hs trivial, invB_step_0 ha hb hs trivial, invC_step_0 ha hc hs trivial⟩
   | publish r => exact ⟨invA_step_env ha hs trivial, invB_step_0 ha hb hs trivial, invC_step_0 ha hc hs trivial⟩
   | fdtor => exact ⟨invA_step_env ha hs trivial, invB_step_0 ha hb hs trivial, invC_step_0 ha hc hs trivial⟩
+  | tdtor j => exact ⟨invA_step_env ha hs trivial, invB_step_0 ha hb hs trivial, invC_step_0 ha hc hs trivial⟩
 
 theorem inv_reachable {w s} (hwf : w.WF) (h : Reachable w s) : Inv w s := by
   induction h with
